@@ -55,6 +55,10 @@ func runC08(c *core.Ctx) {
 	kind := c.T.Choose(7, "closekind")
 	blockWrites := c.T.Bias(1, 3, "blockwrites")
 	closeErr := c.T.Bias(1, 4, "closeerr")
+	// the application's state handler: 1 = slow (states queue up behind it), 2 = reacts to Closed by calling the
+	// idempotent Close itself, 3 = both
+	hmode := c.T.Pick([]int{3, 1, 1, 1}, "statehandler")
+	slowHandler, reenter := hmode&1 != 0, hmode&2 != 0
 	c.Knob("base", base)
 	c.Knob("cut", cut)
 	c.Knob("kind", kind)
@@ -78,6 +82,23 @@ func runC08(c *core.Ctx) {
 		return
 	}
 	A, B := d.A, d.B
+	var reentered, reenterDone atomic.Bool
+	if hmode != 0 {
+		c.Knob("statehandler", hmode)
+		A.OnState = func(st ice.ConnectionState) {
+			if st == ice.ConnectionStateClosed {
+				if reenter {
+					reentered.Store(true)
+					_ = A.A.Close()
+					reenterDone.Store(true)
+				}
+				return
+			}
+			if slowHandler {
+				time.Sleep(30 * time.Millisecond)
+			}
+		}
+	}
 	var callers []*c08Caller
 	var mu sync.Mutex
 	spawn := func(name string, f func() error) *c08Caller {
@@ -396,7 +417,8 @@ func runC08(c *core.Ctx) {
 					break
 				}
 			}
-			if st := A.LastState(); st != ice.ConnectionStateClosed && !c.Failed() {
+			// (a handler that is still busy with an earlier state delays the notification, not the teardown)
+			if st := A.LastState(); st != ice.ConnectionStateClosed && !c.Failed() && !slowHandler {
 				c.Failf("C08/close-returned-before-teardown", "%s returned but the last notified state is %s, not Closed (cut %d/%d, kind %d)", who, st, pos, len(ops), kind)
 			}
 			if c.Failed() {
@@ -509,6 +531,10 @@ func runC08(c *core.Ctx) {
 	call("Close again", false, func() error { return A.A.Close() })
 	call("GracefulClose again", false, func() error { return A.A.GracefulClose() })
 	time.Sleep(5 * time.Millisecond)
+	if slowHandler {
+		// GracefulClose waits for the handlers; the slow one needs 30 ms per queued state
+		time.Sleep(300 * time.Millisecond)
+	}
 	synctest.Wait()
 	for _, r := range apis {
 		if !r.done.Load() {
@@ -542,6 +568,16 @@ func runC08(c *core.Ctx) {
 		}
 	}
 	_ = nStates
+	if reentered.Load() {
+		c.Probe("close-from-closed-callback")
+		if !reenterDone.Load() {
+			c.Failf("C08/close-from-closed-callback-did-not-return", "the state handler called Close when it was told Closed; that call has not returned 5 s later")
+			return
+		}
+	}
+	if slowHandler && len(st) > 2 {
+		c.Probe("closed-behind-queued-states")
+	}
 	for _, s := range aSocks() {
 		if staysOpen && s.CloseCalls > 0 {
 			continue // the agent did close it; the simulated socket refuses to close (fault)
